@@ -3834,6 +3834,10 @@ Case_BaseLdurStur:
         if (!match_signature(o0, o1, inst_flags))
           goto InvalidInstruction;
 
+        // The size comes from the first source of a long instruction, so the destination has to be checked against it.
+        if ((inst_flags & InstDB::kInstFlagLong) && !check_wide_scalar(o1, o0))
+          goto InvalidInstruction;
+
         if (!o2.as<Vec>().has_element_index()) {
           SizeOp size_op = element_type_to_size_op(op_data.regular_vec_type, sop.as<Reg>().reg_type(), sop.as<Vec>().element_type());
           if (!size_op.is_valid())
